@@ -116,6 +116,11 @@ func (f *genFam) populate(r *rand.Rand) {
 		f.try(&stypes.MsgSetProviderKeybase{Creator: acct("p1").S(), Keybase: "kb2"})
 		f.try(&stypes.MsgAddClaimer{Creator: acct("p2").S(), ClaimAddress: cc.S()})
 	}
+	if opt() {
+		// address spellings a tidy-up on write would rewrite (and rewrite again on import): trailing slashes, upper case, dot segments
+		ips := []string{"https://node3.d3.com/", "https://node3.d3.com//", "HTTPS://Node3.D3.com", "https://node3.d3.com:443/x/../", "https://node3.d3.com/// "}
+		f.try(&stypes.MsgSetProviderIP{Creator: acct("p3").S(), Ip: ips[r.Intn(len(ips))]})
+	}
 	files := []*tfile{}
 	for i, m := range []string{"m1", "m2", "m3"} {
 		data := []byte(strings.Repeat(m, 2+i))
